@@ -267,6 +267,7 @@ func init() {
 			out = append(out, schedScenario{
 				Name: sc.Name, Tag: strings.SplitN(c13mods[sc.Mod].name, "-", 2)[0], Bound: sc.Bound, MaxExec: sc.MaxExec, Shards: maxI2(sc.Shards, map[bool]int{true: 8, false: 1}[len(sc.Bodies) > 2]),
 				Fresh: func() ([]func() string, []string) {
+					c13prelude()
 					m := c13mods[sc.Mod].mk()
 					var bs []func() string
 					var ns []string
@@ -734,4 +735,20 @@ func maxI2(a, b int) int {
 		return a
 	}
 	return b
+}
+
+// c13prelude runs, before the threads of every execution start, two operations that FAIL and are
+// recovered from by the caller -- printing a function whose block has no terminator yet (a debug
+// dump of IR under construction; it panics) and parsing a rejected input -- so that process-wide
+// state left behind by an error path (a buffer returned to a pool twice, a half-updated cache) is
+// in place when the concurrent printers run.
+func c13prelude() {
+	m := ir.NewModule()
+	f := m.NewFunc("prelude", types.Void)
+	b := f.NewBlock("entry")
+	b.NewAdd(constant.NewInt(types.I32, int64(c13salt)), constant.NewInt(types.I32, 1))
+	fw.Try(func() { _ = f.LLString() })
+	fw.Try(func() { _ = b.LLString() })
+	fw.Try(func() { _ = m.String() })
+	fw.Try(func() { asm.ParseString("prelude.ll", "define void @f() {\n  br label %nowhere\n}\n") })
 }
